@@ -401,6 +401,16 @@ class XPathFunction(XPathToken):
         func.__dict__.pop('evaluate', None)
         func.__dict__.pop('select', None)
         func.label = func.__dict__.pop('base_label', func.label)
+        if isinstance(func.label, MultiLabel):
+            # Disambiguate multi-label tokens, as for a direct call
+            if func.namespace == XSD_NAMESPACE and \
+                    'constructor function' in func.label.values:
+                func.label = 'constructor function'
+            else:
+                for label in func.label.values:
+                    if label.endswith('function'):
+                        func.label = label
+                        break
         return func.evaluate(context)
 
     def _partial_select(self, context: ta.ContextType = None) -> Iterator[ta.ItemType]:
